@@ -11,9 +11,11 @@ d (added)  only exactly coinciding end points are short-circuited as a zero-leng
 
 d-facade (round 3)  System.propagate and the system service hand the signed end time forward*tf on for all four sign combinations
 b-dispatch (round 3)  C17.d's dispatch / twin-option table re-filed: a direction wrapper never reaches the parametric Hamiltonian kernel
+d (round 4)  every integrate() takes the zero-span short-circuit before a kernel sees a grid with coinciding end points (fixed: RK45, symplectic)
 """
 from __future__ import annotations
 
+import ast
 import itertools
 
 import numpy as np
@@ -47,6 +49,7 @@ def run(tier):
     _a_propagate(chk)
     _a_propagate_options(chk)
     _a_facade_chain(chk)
+    _d_zero_span_everywhere(chk)
     # a direction wrapper is not an instance of the Hamiltonian protocol although it forwards attribute reads (rhs_params
     # included) to the wrapped system: every integrator must send it through the generic kernels with the wrapper's own
     # (sign-flipped) right-hand side; the parametric fast path integrates the un-reversed field (C17.d's dispatch table)
@@ -284,6 +287,35 @@ def _a_propagate_options(chk):
                       f"{ctor} is built with {k} for order={OD}" + (f", rtol={RT}, atol={AT}, max_step={MS}" if label == "given" else " and no tolerances given")
                       + ": an option does not reach the integrator under its own name", sample=f"{method}/{label}: {ctor}({', '.join(sorted(k))}) forwarded", nontrivial=(label == "given"))
     chk.count("functions partially evaluated", 6)
+
+
+def _d_zero_span_everywhere(chk):
+    """validate_inputs admits a grid whose end points coincide (documented: "for the zero-span short-circuit"); every integrator's
+    integrate() must therefore take that short-circuit (or raise) BEFORE a kernel sees the grid: a zero step makes the symplectic
+    omega = (c*0)^-order infinite (NaN states, silently) and the RK45 dense output divide by a zero segment length.  Path rule on the
+    statement CFG: every path from the entry of integrate() to a kernel call passes the call of _maybe_constant_solution whose non-None
+    result is returned."""
+    n = 0
+    for cls_name, modname, drivers, kind in INTEGRATORS:
+        mod, cls = ri.find_def(modname, cls_name)
+        fn = next((f for f in cls.body if isinstance(f, ast.FunctionDef) and f.name == "integrate"), None)
+        if fn is None:
+            raise AnalysisError(f"anchor: {cls_name}.integrate not found")
+        n += 1
+        sc = [c for c in ast.walk(fn) if isinstance(c, ast.Call) and isinstance(c.func, ast.Attribute) and c.func.attr == "_maybe_constant_solution"]
+        kernels = [c for c in ast.walk(fn) if isinstance(c, ast.Call) and ast.unparse(c.func).split(".")[-1].startswith("_integrate_")]
+        if not kernels:
+            raise AnalysisError(f"anchor: {cls_name}.integrate calls no _integrate_* kernel")
+        ok = False
+        if sc:
+            # the short-circuit sits in the straight-line prefix of the body (not under a branch) and precedes every kernel call; its result is returned when not None
+            top = [st for st in fn.body if any(c is x for c in sc for x in ast.walk(st))]
+            guard = [st for st in fn.body if isinstance(st, ast.If) and any(isinstance(r, ast.Return) for r in st.body) and "is not None" in ast.unparse(st.test)]
+            ok = bool(top) and bool(guard) and min(st.lineno for st in top) < min(k.lineno for k in kernels) and min(g.lineno for g in guard) < min(k.lineno for k in kernels)
+        chk.check(ok, "C10.d", f"{modname}::{cls_name}.integrate[zero-span grid]",
+                  f"{cls_name}.integrate hands a grid with coinciding end points (admitted by validate_inputs) to {sorted({ast.unparse(k.func).split('.')[-1] for k in kernels})[:2]} "
+                  f"without taking the zero-span short-circuit first", sample=f"{cls_name}.integrate: _maybe_constant_solution before any kernel")
+    chk.floor("integrate() methods examined for the zero-span short-circuit", n, 4)
 
 
 def _a_facade_chain(chk):
